@@ -39,7 +39,7 @@ ID = "C15"
 LEAN_TARGETS = ["RV.C15.Props", "RV.C15.Audit"]
 AUDIT = "RV/C15/Audit.lean"
 DRIVER = "drv_c15"
-CASES = {"quick": 1050, "thorough": 30000, "search": 6000}
+CASES = {"quick": 1100, "thorough": 30000, "search": 6000}
 RULE = ("random SELECT queries (BGPs of 1-4 patterns over <=4 variables, joins of groups, UNION, OPTIONAL, FILTER, "
         "MINUS, BIND, VALUES, sub-SELECT, GRAPH, property paths, DISTINCT / ORDER BY / GROUP BY+COUNT) over 5-15 "
         "triples in 0-3 named graphs; each case poses the query in two or more ways the property calls equivalent "
@@ -455,11 +455,127 @@ def gen_td_expr(rng, g, depth):
 def td_bgp(rng, g, lo, hi):
     ts = []
     for _ in range(rng.randint(lo, hi)):
-        s_ = g.var() if rng.random() < 0.9 else rng.choice(g.subs)
-        p_ = g.var() if rng.random() < 0.1 else rng.choice(g.preds)
-        o_ = g.var() if rng.random() < 0.75 else rng.choice(g.objs)
+        s_ = g.var() if rng.random() < 0.93 else rng.choice(g.subs)
+        p_ = g.var() if rng.random() < 0.08 else rng.choice(g.preds)
+        o_ = g.var() if rng.random() < 0.8 else rng.choice(g.objs)
         ts.append([s_, p_, o_])
     return {"k": "bgp", "ts": ts}
+
+
+def gen_td_data(rng, ds):
+    """denser than gen_data: 10-18 triples over three subjects, two or three predicates"""
+    subs = ["a", "b", "c"] + (["_n"] if rng.random() < 0.2 else [])
+    preds = ["p", "q"] + (["r"] if rng.random() < 0.25 else [])
+    objs = subs + subs + rng.sample(list(LITS), rng.choice([0, 1, 1]))
+    graphs = [0, 0] + ([1, 2, 3][: rng.randint(1, 2)] if ds else [])
+    seen, out = set(), []
+    for _ in range(rng.randint(10, 18)):
+        t = (rng.choice(subs), rng.choice(preds), rng.choice(objs), rng.choice(graphs))
+        if t not in seen:
+            seen.add(t)
+            out.append(list(t))
+    return out
+
+
+def gen_td_one(rng, g, els):
+    """one non-BGP element over few shared variables: small operands, so that each operator really decides rows"""
+    k = rng.choice(["optional", "optional", "optionalf", "minus", "minus", "filter", "bind", "values", "union"]
+                   + (["graph", "graph"] if g.ds else []))
+    small = lambda: {"k": "group", "els": [td_bgp(rng, g, 1, 1)]}      # noqa: E731
+    if k == "optional":
+        return {"k": "optional", "g": small()}
+    if k == "optionalf":
+        og = small()
+        og["els"].append({"k": "filter", "e": gen_td_expr(rng, g, 1)})
+        return {"k": "optional", "g": og}
+    if k == "minus":
+        return {"k": "minus", "g": small()}
+    if k == "filter":
+        return {"k": "filter", "e": gen_td_expr(rng, g, 1)}
+    if k == "bind":
+        free = [v for v in g.vars if v not in all_vars(els)]
+        if not free:
+            return {"k": "filter", "e": gen_td_expr(rng, g, 1)}
+        return {"k": "bind", "e": (g.var() if rng.random() < 0.6 else rng.choice(g.subs)), "v": rng.choice(free)}
+    if k == "values":
+        vs = rng.sample(g.vars, rng.choice([1, 1, 2]))
+        pool = g.subs + g.objs
+        return {"k": "values", "vs": vs,
+                "rows": [[(None if rng.random() < 0.15 else rng.choice(pool)) for _ in vs] for _ in range(rng.choice([1, 2, 3]))]}
+    if k == "union":
+        return {"k": "union", "gs": [small(), small()]}
+    return {"k": "graph", "t": rng.choice([g.var(), g.var(), "g1", "g2", "a"]), "g": small()}
+
+
+def gen_td_focus(rng, g):
+    """outermost BGP, then one to three elements, each either an operator applied at the top level or a nested group
+    `{ B X }` joined lazily — the bindings of what precedes are pushed into B and X"""
+    els = [td_bgp(rng, g, 1, 2)]
+    for _ in range(rng.choice([1, 1, 2, 2, 3])):
+        if rng.random() < 0.5:
+            inner = [td_bgp(rng, g, 1, 1)] if rng.random() < 0.8 else []
+            for _ in range(rng.choice([1, 1, 2])):
+                inner.append(gen_td_one(rng, g, inner))
+            els.append({"k": "grp", "g": {"k": "group", "els": inner}})
+        else:
+            els.append(gen_td_one(rng, g, els))
+    return {"k": "group", "els": els}
+
+
+def gen_td_push(rng, g):
+    """`B0 . { B1 X }` (or the operands the other way round, or three operands): X is one or two operators over a
+    variable `o` that B0 binds and B1 does not, and a variable `z` of B1 — what the lazy join pushes into the nested
+    group meets `_vars`, forget / remember, `ctx.clean()` and the AlreadyBound tests there"""
+    r = rng
+    vs = list(g.vars)
+    r.shuffle(vs)
+    o, z = vs[0], vs[1]
+    u = vs[2]
+    pr = lambda: r.choice(g.preds)      # noqa: E731
+    b0 = {"k": "bgp", "ts": [[o, pr(), r.choice([u, u, z])]] if r.random() < 0.7 else [[r.choice([u, z]), pr(), o]]}
+    b1 = {"k": "bgp", "ts": [[z, pr(), r.choice([u, u, r.choice(g.objs)])]]}
+    pat = lambda: [[z, pr(), o]] if r.random() < 0.6 else [[o, pr(), z]]      # noqa: E731
+    ex = lambda: r.choice([["bound", o], ["sameTerm", o, r.choice([z, u] + g.subs)], ["!", ["bound", o]],      # noqa: E731
+                           ["||", ["bound", o], ["sameTerm", z, u]], ["!", ["sameTerm", o, r.choice(g.subs)]]])
+    inner = [b1]
+    for _ in range(r.choice([1, 1, 2])):
+        k = r.choice(["optional", "optionalf", "minus", "minus", "minusf", "minusf", "filter", "filter", "bind", "bindc",
+                      "values", "union"] + (["graph", "graphv"] if g.ds else []))
+        if k == "optional":
+            inner.append({"k": "optional", "g": {"k": "group", "els": [{"k": "bgp", "ts": pat()}]}})
+        elif k == "optionalf":
+            inner.append({"k": "optional", "g": {"k": "group", "els": [{"k": "bgp", "ts": pat()}, {"k": "filter", "e": ex()}]}})
+        elif k == "minus":
+            inner.append({"k": "minus", "g": {"k": "group", "els": [{"k": "bgp", "ts": pat()}]}})
+        elif k == "minusf":
+            mp = pat() if r.random() < 0.4 else [[r.choice(g.subs), pr(), o]]
+            inner.append({"k": "minus", "g": {"k": "group", "els": [{"k": "bgp", "ts": mp}]}})
+            inner.append({"k": "filter", "e": ex()})
+        elif k == "filter":
+            inner.append({"k": "filter", "e": ex()})
+        elif k in ("bind", "bindc"):
+            if o not in all_vars(inner):
+                inner.append({"k": "bind", "e": (z if k == "bind" else r.choice(g.subs)), "v": o})
+            else:
+                inner.append({"k": "filter", "e": ex()})
+        elif k == "values":
+            inner.append({"k": "values", "vs": [o], "rows": [[t] for t in r.sample(g.subs + [None], 2)]})
+        elif k == "union":
+            inner.append({"k": "union", "gs": [{"k": "group", "els": [{"k": "bgp", "ts": pat()}]},
+                                              {"k": "group", "els": [{"k": "bgp", "ts": [[z, pr(), u]]}]}]})
+        elif k == "graph":
+            inner.append({"k": "graph", "t": r.choice(["g1", "g2"]), "g": {"k": "group", "els": [{"k": "bgp", "ts": pat()}]}})
+        else:
+            inner.append({"k": "graph", "t": o, "g": {"k": "group", "els": [{"k": "bgp", "ts": [[z, pr(), u]]}]}})
+    nested = {"k": "grp", "g": {"k": "group", "els": inner}}
+    shape = r.random()
+    if shape < 0.6:
+        els = [b0, nested]
+    elif shape < 0.8:
+        els = [nested, {"k": "grp", "g": {"k": "group", "els": [b0]}}]
+    else:       # three operands: the second join is not lazy
+        els = [b0, {"k": "grp", "g": {"k": "group", "els": [{"k": "bgp", "ts": [[u, pr(), r.choice([z, o])]]}]}}, nested]
+    return {"k": "group", "els": els}
 
 
 def gen_td_group(rng, g, depth, top=False):
@@ -525,7 +641,7 @@ def gen_case(rng, tier, i):
     inside the worker from a seed (`materialize`) because choosing a query with a non-empty answer needs
     evaluations, which would serialise the run if done in the parent process."""
     stream = rng.choices(["rewrite", "init", "prepared", "store", "bgp", "frag", "sel", "nsctx", "td"],
-                         [28, 11, 14, 15, 9, 8, 6, 6, 12])[0]
+                         [26, 11, 13, 14, 8, 7, 6, 6, 20])[0]
     if stream in ("bgp", "frag", "sel", "td"):
         while True:
             try:
@@ -607,27 +723,53 @@ def _gen_case(rng, tier, i, stream):
         return {"stream": "sel", "data": data, "ds": False, "q": q, "seed": seed, "inits": init, "nvars": len(g.vars)}
     if stream == "td":
         ds = rng.random() < 0.4
-        data = gen_data(rng, ds)
+        data = gen_td_data(rng, ds)
         if ds:      # a default graph dense enough for the outermost BGP: most named-graph triples are in it as well
             have = {tuple(r[:3]) for r in data if r[3] == 0}
             for r in list(data):
                 if r[3] != 0 and tuple(r[:3]) not in have and rng.random() < 0.7:
                     have.add(tuple(r[:3]))
                     data.append(r[:3] + [0])
-        g = Gen(rng, data, ds, nvars=rng.choice([3, 4]))
-        where = gen_td_group(rng, g, 2, top=True)
+        g = Gen(rng, data, ds, nvars=rng.choice([3, 3, 4]))
+        tails = rng.random() < 0.25
+        if tails:
+            # the shape of `initbindings_values_td`: outermost BGP, then OPTIONAL { B [FILTER e] } / {B1} UNION {B2}
+            els = [td_bgp(rng, g, 1, 2)]
+            for _ in range(rng.choice([1, 1, 2, 3])):
+                if rng.random() < 0.6:
+                    og = {"k": "group", "els": [td_bgp(rng, g, 1, 2)]}
+                    if rng.random() < 0.4:
+                        og["els"].append({"k": "filter", "e": gen_td_expr(rng, g, 0)})
+                    els.append({"k": "optional", "g": og})
+                else:
+                    els.append({"k": "union", "gs": [{"k": "group", "els": [td_bgp(rng, g, 1, 2)]} for _ in range(2)]})
+            where = {"k": "group", "els": els}
+        elif rng.random() < 0.5:
+            where = gen_td_push(rng, g)
+        elif rng.random() < 0.7:
+            where = gen_td_focus(rng, g)
+        else:
+            where = gen_td_group(rng, g, 2, top=True)
         star = sorted(td_star_vars(where))
         q = {"distinct": False, "proj": (rng.sample(g.vars, rng.randint(1, len(g.vars))) if rng.random() < 0.4 else None),
              "where": where, "group": None, "count": None, "order": None}
+        if tails:
+            q["proj"] = list(g.vars)
         case = {"stream": "td", "data": data, "ds": ds, "q": q, "seed": seed, "nvars": len(g.vars), "star": star}
-        if rng.random() < 0.5:
+        if tails:
+            case["tails"] = True
+        if tails or rng.random() < 0.5:
             ivars = rng.sample(g.vars, rng.choice([1, 1, 2]))
             pool = [t for t in g.subs + g.objs if t != "_n"] + (["g1"] if ds else [])
+            if tails and rng.random() < 0.75:       # inside the side condition: variables of the outermost BGP
+                outer = sorted(all_vars(where["els"][0]))
+                if outer:
+                    ivars = rng.sample(outer, min(len(outer), rng.choice([1, 1, 2])))
             inits = []
             for v in sorted(ivars):
                 t = rng.choice(pool)
                 # mostly a value the variable can take: from a data triple fitting a pattern of the outermost BGP
-                fits = [(tp, row) for tp in where["els"][0]["ts"] for row in data
+                fits = [(tp, row) for tp in where["els"][0].get("ts", []) for row in data
                         if v in tp and (is_var(tp[1]) or tp[1] == row[1])]
                 if fits and rng.random() < 0.7:
                     tp, row = rng.choice(fits)
@@ -1557,6 +1699,22 @@ def run_impl(case):
             stats["td_nonempty"] = 1
         if a[0] == "err":
             stats["td_error"] = 1
+        if case.get("tails"):
+            # the VALUES form (row at the end of the group, no initBindings): `initbindings_values_td`
+            qv = _copy(q)
+            qv["where"]["els"].append({"k": "values", "vs": [v for v, _t in inits], "rows": [[t for _v, t in inits]]})
+            bv = evaluate(base_g, qv)
+            obs.append(rows_line(bv, vs))
+            outer = all_vars(q["where"]["els"][0])
+            ok = all(v in outer for v, _t in inits)
+            stats["td_tails_side_condition_" + ("met" if ok else "unmet")] = 1
+            stats["td_tails_unions_%d" % min(2, sum(1 for e in q["where"]["els"] if e["k"] == "union"))] = 1
+            compared += 1
+            if ok and a != bv:
+                viol.append("init: initBindings %s give %s, the VALUES row at the end of the group gives %s"
+                            % (inits, _short(a), _short(bv)))
+            if a != bv:
+                stats["td_tails_init_differs_from_values"] = 1
         # the same query with every BGP shuffled and the variables renamed consistently, same initBindings
         # (renamed): the theorems `td_bgp_reorder` / `td_rename_equivariant`, asked of the implementation
         q2, colmap, mode, sseed = apply_rewrite(q, "bgp_shuffle", seed)
@@ -1867,6 +2025,12 @@ def model_lines(case):
             lines.append("init %d %d" % (vs.index(v), TERM_NUM[t]))
         pv = case["star"] if q["proj"] is None else q["proj"]
         lines.append("evaltd %d %s" % (len(pv), " ".join(str(vs.index(v)) for v in pv)))
+        if case.get("tails"):
+            inits = case["inits"]
+            qv = _copy(q)
+            qv["where"]["els"].append({"k": "values", "vs": [v for v, _t in inits], "rows": [[t for _v, t in inits]]})
+            lines += ["noinit", "p " + " ".join(_td_tokens(_td_alg(qv["where"]), vs)),
+                      "evaltd %d %s" % (len(pv), " ".join(str(vs.index(v)) for v in pv))]
         return lines
     if stream not in ("bgp", "frag", "sel"):
         return []
